@@ -25,7 +25,7 @@ func init() {
 	Register(&PropDef{
 		ID:    "C17",
 		Title: "Router dispatches to a longest matching route, else the default",
-		Rule: "1-3 tasks x 1-4 operations {Handle, HandleRemove, DefaultHandle, ServeCOAP} on one router with two middlewares; patterns from literals (incl. regexp metacharacters), {var}, {var:regex} and a trailing greedy variable; paths of 0-3 segments; cooperative scheduling with a park point between the router's two read-locked sections; " +
+		Rule: "1-3 tasks x 1-4 operations {Handle, HandleRemove, DefaultHandle, ServeCOAP} on one router with two middlewares; patterns from literals (incl. regexp metacharacters and U+FFFD), {var}, {var:regex} and a trailing greedy variable; paths of 0-3 segments (incl. segments that are not well-formed UTF-8: Uri-Path values are opaque bytes on the wire); cooperative scheduling with a park point between the router's two read-locked sections; " +
 			"non-trivial = a dispatch overlapped a registration/removal, or at least two registered patterns matched the path; distinct = distinct event-log hash (route sets and paths are sampled, not enumerated)",
 		Scenarios: []Scenario{{Name: "M-ROUTER", Weight: 4, Run: c17Run}, {Name: "S-ROUTE/wire", Weight: 1, Run: c17WireRun}},
 		Quick:     300000,
@@ -60,7 +60,7 @@ func c17MakePattern(t *Tape) c17Pattern {
 		var s c17Seg
 		switch t.Weighted(5, 2, 1, 1, 1) {
 		case 0:
-			s.lit = []string{"a", "b", "a.b", "c+", "ab", "12", "a(b"}[t.Choose(7)]
+			s.lit = []string{"a", "b", "a.b", "c+", "ab", "12", "a(b", "\uFFFD", "a\uFFFDb"}[t.Choose(9)]
 		case 1:
 			s.name, s.class = fmt.Sprintf("v%d", i), 0
 		case 2:
@@ -209,7 +209,7 @@ func c17Run(e *Env) {
 		n := t.Choose(4)
 		p := ""
 		for j := 0; j < n; j++ {
-			p += "/" + []string{"a", "b", "a.b", "aXb", "12", "ab", "c", "c+", "cc", "a(b"}[t.Choose(10)]
+			p += "/" + []string{"a", "b", "a.b", "aXb", "12", "ab", "c", "c+", "cc", "a(b", "\xff", "a\xffb", "\uFFFD", "a\uFFFDb", "a\xc0\x80b"}[t.Choose(15)]
 		}
 		paths = append(paths, p)
 	}
